@@ -1,4 +1,5 @@
 import NixModel.Pure.Stamps
+import NixModel.Pure.StampsCreate
 import NixModel.Lemmas.C19Time
 import NixModel.Lemmas.C19Stamps
 
@@ -650,5 +651,144 @@ example : ∃ s, State.open 1000 true = .ok s ∧
     readUpdated (run (step s (.forceUpdated 0 (.at 4102444799))).1 [.reopen false, .setClock 5]) 0
       = some (.ok (some 4102444799)) :=
   ⟨_, rfl, by decide +kernel⟩
+
+/-! ## creation, read from the source -/
+
+/-- (generated creator shapes) for every entity kind, `C.create_new(...)` — the chain of `create_new` class
+methods along Python's MRO, with the setters it runs on the half-built entity (`newentity.position =
+position`, `newfeature.data = data`, …) — returns an entity whose `created_at` AND `updated_at` have both
+been written with the current time, under either switch setting.  A creator that names the switch, writes
+a stamp under a condition or with an argument, or returns early makes `createNew` `none` and breaks this
+theorem. -/
+theorem C19_creators_stamp_both (k : Kind) (hk : k ≠ .file) (auto : Bool) :
+    createNew k.cls auto = some ⟨true, true⟩ := by
+  cases k <;> cases auto <;> first | exact absurd rfl hk | decide +kernel
+
+def factoriesOk : Bool :=
+  factories.all fun f => factoryResult f true == some ⟨true, true⟩ &&
+    factoryResult f false == some ⟨true, true⟩
+
+/-- (generated factory shapes) the same for every `create_*` method (`Block.create_data_array` runs
+`write_direct`, `unit =`, `label =` on the new array; `Block.create_multi_tag` `extents =`;
+`Section.create_property` `values =`): when it returns, both stamps of the new entity are the current time -/
+theorem C19_factories_stamp_both (f : Factory) (hf : f ∈ factories) (auto : Bool) :
+    factoryResult f auto = some ⟨true, true⟩ := by
+  have hall : factoriesOk = true := by decide +kernel
+  simp only [factoriesOk, List.all_eq_true, Bool.and_eq_true, beq_iff_eq] at hall
+  cases auto
+  · exact (hall f hf).2
+  · exact (hall f hf).1
+
+def factoriesCover : Bool :=
+  (Kind.all.all fun k => k == .file || factories.any fun f => f.creates == k.cls) &&
+  (factories.all fun f => Kind.all.any fun k => Kind.all.any fun p =>
+    f.creates == k.cls && validParent k p && (mro p.cls).contains f.owner)
+
+/-- every entity kind except the file has a factory, and every factory makes an entity kind inside an
+owner the model allows (`validParent`): the model's `create` covers exactly the source's creating methods -/
+theorem C19_factories_cover_kinds :
+    (∀ k : Kind, k ≠ .file → ∃ f ∈ factories, f.creates = k.cls) ∧
+    (∀ f ∈ factories, ∃ k p : Kind, f.creates = k.cls ∧ validParent k p = true ∧
+      f.owner ∈ mro p.cls) := by
+  have hall : factoriesCover = true := by decide +kernel
+  simp only [factoriesCover, Bool.and_eq_true, List.all_eq_true, List.any_eq_true, Bool.or_eq_true,
+    beq_iff_eq, List.contains_iff_mem] at hall
+  refine ⟨?_, ?_⟩
+  · intro k hk
+    rcases hall.1 k (Kind.mem_all k) with h | h
+    · exact absurd h hk
+    · exact h
+  · intro f hf
+    obtain ⟨k, _, p, _, ⟨h1, h2⟩, h3⟩ := hall.2 f hf
+    exact ⟨k, p, h1, h2, h3⟩
+
+/-- the hand-written creation of `Pure.Stamps.step` is what the source's factory computes: the new entity's
+stored stamps are the current time's text exactly where `factoryResult` says they were written -/
+theorem C19_create_refines_source (s : State) (k : Kind) (p : Nat) (pe : Ent) (f : Factory) (v : Str)
+    (hp : s.ents[p]? = some pe) (halive : pe.alive = true) (hv : validParent k pe.kind = true)
+    (hf : f ∈ factories) (_hfk : f.creates = k.cls) (hts : timeToStr s.clock = .ok v) :
+    ∃ r, factoryResult f s.auto = some r ∧
+      (step s (.create k p .good)).1.ents[s.ents.length]? =
+        some { kind := k, parent := p, alive := true, created := stampText r.created v,
+               updated := stampText r.updated v } := by
+  refine ⟨⟨true, true⟩, C19_factories_stamp_both f hf s.auto, ?_⟩
+  have hal : aliveAt s p = some pe := by simp [aliveAt, hp, halive]
+  simp [step, hal, hv, hts, stampText]
+
+example : creatorOf .Tag = some ⟨.Tag, [.super, .assign .m_position false]⟩ ∧
+    createNew .Tag false = some ⟨true, true⟩ ∧
+    -- a creator step that names the switch, or an unrecognised use of the machinery: no result
+    runCSteps .Tag true ⟨true, true⟩ [.switchUse] = none ∧
+    runCSteps .Tag true ⟨true, true⟩ [.unknown] = none ∧
+    -- a setter run before the stamps are written leaves them for the force calls
+    runCSteps .Feature true ⟨false, false⟩ [.assign .m_data false] = some ⟨false, true⟩ := by
+  decide +kernel
+
+/-! ## the switch -/
+
+def switchOk : Bool :=
+  switchUses.all (fun u => u.use != .strayRead && u.use != .strayWrite) &&
+  (switchUses.filter (fun u => u.use == .initFromParam)).length == 1 &&
+  (switchUses.filter (fun u => u.use == .setterFromParam)).length == 1 &&
+  (switchUses.filter (fun u => u.use == .getterReturns)).length == 1
+
+/-- (table over nixio/**/*.py) the switch is named only by `File.__init__` (one unconditional assignment from
+its parameter), by the property's own getter and setter, by `File.open` handing its parameter on, and by the
+tests of the recognised idiom: no other function assigns it, keeps a copy of it, or reaches it by name.
+A creator that saves / clears / restores the switch around a setter breaks this theorem. -/
+theorem C19_switch_written_only_by_assignment :
+    (∀ u ∈ switchUses, u.use ≠ .strayWrite ∧ u.use ≠ .strayRead) ∧
+    (switchUses.filter (fun u => u.use == .initFromParam)).length = 1 ∧
+    (switchUses.filter (fun u => u.use == .setterFromParam)).length = 1 ∧
+    (switchUses.filter (fun u => u.use == .getterReturns)).length = 1 := by
+  have hall : switchOk = true := by decide +kernel
+  simp only [switchOk, Bool.and_eq_true, List.all_eq_true, bne_iff_ne, ne_eq, beq_iff_eq] at hall
+  obtain ⟨⟨⟨h1, h2⟩, h3⟩, h4⟩ := hall
+  exact ⟨fun u hu => ⟨(h1 u hu).2, (h1 u hu).1⟩, h2, h3, h4⟩
+
+/-- over any history the switch is what the user assigned last (`file.auto_update_timestamps = b`, or
+re-opening with `auto_update_timestamps=b`): no call, creation, deletion or force call — accepted or
+refused — changes it -/
+theorem C19_switch_follows_assignments (ops : List Op) : ∀ (s : State),
+    (run s ops).auto = lastSwitch s.auto ops := by
+  induction ops with
+  | nil => intro s; rfl
+  | cons op ops ih =>
+    intro s
+    simp only [run, lastSwitch]
+    rw [ih, step_auto]
+    cases op <;> rfl
+
+/-- in particular a history without such an assignment leaves the switch as it was -/
+theorem C19_calls_keep_switch (ops : List Op) (s : State)
+    (h : ∀ op ∈ ops, op.setsSwitch = none) : (run s ops).auto = s.auto := by
+  rw [C19_switch_follows_assignments]
+  induction ops generalizing s with
+  | nil => rfl
+  | cons op ops ih =>
+    simp only [lastSwitch, h op (List.mem_cons_self ..)]
+    exact ih s (fun o ho => h o (List.mem_cons_of_mem _ ho))
+
+/-- with the switch on, after ANY history that does not assign the switch (refused creations, refused and
+accepted calls, deletions, force calls, clock changes …), assigning a listed attribute of a live entity still
+sets that entity's update time to the current time and leaves every other entity as it was -/
+theorem C19_listed_stamped_after_any_history (s : State) (ops : List Op) (hauto : s.auto = true)
+    (hno : ∀ op ∈ ops, op.setsSwitch = none)
+    (e : Nat) (ent : Ent) (m : Mem) (mb : Member) (o : Outcome)
+    (he : (run s ops).ents[e]? = some ent) (halive : ent.alive = true)
+    (hm : m ∈ listed) (hres : resolve ent.kind.cls m = some mb) (ho : o ∈ mb.outcomes)
+    (hret : o.exit = .returns) (hclock : InRange (run s ops).clock) :
+    (step (run s ops) (.call e none m o)).2 = .done ∧
+    (∃ e', (step (run s ops) (.call e none m o)).1.ents[e]? = some e' ∧
+        readStamp e'.updated = .ok (some (run s ops).clock) ∧ e'.created = ent.created) ∧
+    (∀ j, j ≠ e → (step (run s ops) (.call e none m o)).1.ents[j]? = (run s ops).ents[j]?) :=
+  C19_auto_on_local (run s ops) e ent m mb o he halive
+    ((C19_calls_keep_switch ops s hno).trans hauto) hm hres ho hret hclock
+
+example : lastSwitch true [.create .tag 1 .refusedEarly, .setClock 5, .call 1 none .m_type ⟨.raises, .none⟩] = true ∧
+    lastSwitch true [.setAuto false, .create .tag 1 .refusedEarly, .reopen true, .delete 1] = true ∧
+    (switchUses.filter (fun u => u.use == .idiomTest)).length > 30 := by
+  decide +kernel
+
 
 end Nix.C19
